@@ -26,10 +26,14 @@ def enumerate_states(tier):
     for req in ["", "pub", "pub(crate)", "pub(super)", "pub(in crate::KEY)"]:
         for fnvis in ["", "pub", "pub(crate)"]:
             progs.append(dict(mode="fn", req=req, itemvis=fnvis))
+        # visibility is independent of the other options: exporting mocks must not widen the trait
+        progs.append(dict(mode="fn", req=req, itemvis="pub", opts="export"))
+        progs.append(dict(mode="fn", req=req, itemvis="", opts="export_mock"))
     for req in ["", "pub", "pub(crate)", "pub(in crate::KEY)"]:
         for modvis in ["", "pub"]:
             for fnvis in ["pub", "pub(crate)"]:
                 progs.append(dict(mode="mod", req=req, itemvis=modvis, fnvis=fnvis))
+            progs.append(dict(mode="mod", req=req, itemvis=modvis, fnvis="pub", opts="export"))
     for tvis in ["", "pub", "pub(crate)", "pub(super)"]:
         for deleg in ["static", "ref"]:
             for attrvis in ["", "pub"]:
@@ -66,11 +70,12 @@ def model(s):
 def program_src(p, key):
     """Items placed in the defining scope `def`."""
     req = p["req"].replace("KEY", key)
+    mac, extra = {None: ("entrait", ""), "export": ("entrait_export", ""), "export_mock": ("entrait", ", export, mockall = false, mock_api = TrMock")}[p.get("opts")]
     if p["mode"] == "fn":
-        return ["#[::entrait::entrait(%s)]" % (req + " Tr").strip(),
+        return ["#[::entrait::%s(%s%s)]" % (mac, (req + " Tr").strip(), extra),
                 "%s fn f(deps: %s) -> u8 { 7 }" % (p["itemvis"], ANY)]
     if p["mode"] == "mod":
-        return ["#[::entrait::entrait(%s)]" % (req + " Tr").strip(),
+        return ["#[::entrait::%s(%s%s)]" % (mac, (req + " Tr").strip(), extra),
                 "%s mod m { %s fn f(deps: %s) -> u8 { 7 } }" % (p["itemvis"], p["fnvis"], ANY)]
     d = "DelegateTr" if p["deleg"] == "static" else "ref"
     return ["#[::entrait::entrait(%s, delegate_by = %s)]" % ((p["itemvis"] + " TrImpl").strip(), d),
@@ -208,7 +213,7 @@ def evaluate(states, report, tier):
         report.observe(s["key"], dict(nameable=allowed), obs if not problems else dict(obs, problems=[p[0] for p in problems]),
                        nontrivial=True, sample=dict(source=u.src), evals=2)
         for sig, detail in problems:
-            tags = {"mode:" + s["mode"], "req:" + (s["req"] or "none"), "scope:" + s["scope"], "path:" + s["path"], "itemvis:" + (s["itemvis"] or "none")}
+            tags = {"mode:" + s["mode"], "req:" + (s["req"] or "none"), "scope:" + s["scope"], "path:" + s["path"], "itemvis:" + (s["itemvis"] or "none"), "opts:" + (s.get("opts") or "none")}
             report.violation(s["key"], tags, sig, detail, state=s, source=engine.standalone_source(u), meta=dict(mode="check"))
 
 
